@@ -14,6 +14,7 @@ import (
 
 	"github.com/google/uuid"
 	"github.com/hydraide/hydraide/app/core/hydra/swamp"
+	v2 "github.com/hydraide/hydraide/app/core/hydra/swamp/chronicler/v2"
 	"github.com/hydraide/hydraide/app/core/hydra/swamp/treasure"
 	"github.com/hydraide/hydraide/app/core/hydra/swamp/treasure/guard"
 	"github.com/hydraide/hydraide/app/core/settings"
@@ -225,6 +226,9 @@ func (g Gateway) Set(ctx context.Context, in *hydrapb.SetRequest) (*hydrapb.SetR
 			// the whole swamp would fail to load the next time it is opened
 			if item.GetKey() == "" {
 				return nil, status.Error(codes.InvalidArgument, fmt.Sprintf("Key cannot be empty for the swamp: %s", swampRequest.GetSwampName()))
+			}
+			if err := checkTreasureKeyLength(item.GetKey()); err != nil {
+				return nil, err
 			}
 		}
 	}
@@ -1872,6 +1876,9 @@ func (g Gateway) Uint32SlicePush(ctx context.Context, in *hydrapb.AddToUint32Sli
 		if pair.GetKey() == "" {
 			return nil, status.Error(codes.InvalidArgument, "Key cannot be empty")
 		}
+		if err := checkTreasureKeyLength(pair.GetKey()); err != nil {
+			return nil, err
+		}
 	}
 
 	// get the hydra interface
@@ -2106,6 +2113,9 @@ func (g Gateway) IncrementInt8(ctx context.Context, in *hydrapb.IncrementInt8Req
 		// see Set: a treasure with an empty key makes the swamp file unreadable
 		return nil, status.Error(codes.InvalidArgument, "Key cannot be empty")
 	}
+	if err := checkTreasureKeyLength(in.Key); err != nil {
+		return nil, err
+	}
 
 	// check the name of the swamp
 	swampName, err := checkSwampName(g.ZeusInterface, in.GetIslandID(), in.SwampName, false)
@@ -2173,6 +2183,9 @@ func (g Gateway) IncrementInt16(ctx context.Context, in *hydrapb.IncrementInt16R
 		// see Set: a treasure with an empty key makes the swamp file unreadable
 		return nil, status.Error(codes.InvalidArgument, "Key cannot be empty")
 	}
+	if err := checkTreasureKeyLength(in.Key); err != nil {
+		return nil, err
+	}
 
 	// check the name of the swamp
 	swampName, err := checkSwampName(g.ZeusInterface, in.GetIslandID(), in.SwampName, false)
@@ -2238,6 +2251,9 @@ func (g Gateway) IncrementInt32(ctx context.Context, in *hydrapb.IncrementInt32R
 	if in.Key == "" {
 		// see Set: a treasure with an empty key makes the swamp file unreadable
 		return nil, status.Error(codes.InvalidArgument, "Key cannot be empty")
+	}
+	if err := checkTreasureKeyLength(in.Key); err != nil {
+		return nil, err
 	}
 
 	// check the name of the swamp
@@ -2305,6 +2321,9 @@ func (g Gateway) IncrementInt64(ctx context.Context, in *hydrapb.IncrementInt64R
 		// see Set: a treasure with an empty key makes the swamp file unreadable
 		return nil, status.Error(codes.InvalidArgument, "Key cannot be empty")
 	}
+	if err := checkTreasureKeyLength(in.Key); err != nil {
+		return nil, err
+	}
 
 	// check the name of the swamp
 	swampName, err := checkSwampName(g.ZeusInterface, in.GetIslandID(), in.SwampName, false)
@@ -2370,6 +2389,9 @@ func (g Gateway) IncrementUint8(ctx context.Context, in *hydrapb.IncrementUint8R
 	if in.Key == "" {
 		// see Set: a treasure with an empty key makes the swamp file unreadable
 		return nil, status.Error(codes.InvalidArgument, "Key cannot be empty")
+	}
+	if err := checkTreasureKeyLength(in.Key); err != nil {
+		return nil, err
 	}
 
 	// check the name of the swamp
@@ -2437,6 +2459,9 @@ func (g Gateway) IncrementUint16(ctx context.Context, in *hydrapb.IncrementUint1
 		// see Set: a treasure with an empty key makes the swamp file unreadable
 		return nil, status.Error(codes.InvalidArgument, "Key cannot be empty")
 	}
+	if err := checkTreasureKeyLength(in.Key); err != nil {
+		return nil, err
+	}
 
 	// check the name of the swamp
 	swampName, err := checkSwampName(g.ZeusInterface, in.GetIslandID(), in.SwampName, false)
@@ -2502,6 +2527,9 @@ func (g Gateway) IncrementUint32(ctx context.Context, in *hydrapb.IncrementUint3
 	if in.Key == "" {
 		// see Set: a treasure with an empty key makes the swamp file unreadable
 		return nil, status.Error(codes.InvalidArgument, "Key cannot be empty")
+	}
+	if err := checkTreasureKeyLength(in.Key); err != nil {
+		return nil, err
 	}
 
 	// check the name of the swamp
@@ -2569,6 +2597,9 @@ func (g Gateway) IncrementUint64(ctx context.Context, in *hydrapb.IncrementUint6
 		// see Set: a treasure with an empty key makes the swamp file unreadable
 		return nil, status.Error(codes.InvalidArgument, "Key cannot be empty")
 	}
+	if err := checkTreasureKeyLength(in.Key); err != nil {
+		return nil, err
+	}
 
 	// check the name of the swamp
 	swampName, err := checkSwampName(g.ZeusInterface, in.GetIslandID(), in.SwampName, false)
@@ -2634,6 +2665,9 @@ func (g Gateway) IncrementFloat32(ctx context.Context, in *hydrapb.IncrementFloa
 	if in.Key == "" {
 		// see Set: a treasure with an empty key makes the swamp file unreadable
 		return nil, status.Error(codes.InvalidArgument, "Key cannot be empty")
+	}
+	if err := checkTreasureKeyLength(in.Key); err != nil {
+		return nil, err
 	}
 
 	// check the name of the swamp
@@ -2701,6 +2735,9 @@ func (g Gateway) IncrementFloat64(ctx context.Context, in *hydrapb.IncrementFloa
 	if in.Key == "" {
 		// see Set: a treasure with an empty key makes the swamp file unreadable
 		return nil, status.Error(codes.InvalidArgument, "Key cannot be empty")
+	}
+	if err := checkTreasureKeyLength(in.Key); err != nil {
+		return nil, err
 	}
 
 	// check the name of the swamp
@@ -3033,6 +3070,21 @@ func handlePanic() {
 		// log the panic with the error and stack trace
 		slog.Error("grpc gateway panic", "error", r, "stack", string(stackTrace))
 	}
+}
+
+// maxTreasureKeyLength is the longest treasure key the storage format can hold: the V2 swamp file
+// stores the key length of an entry in 16 bits (v2.MaxKeySize).
+const maxTreasureKeyLength = v2.MaxKeySize
+
+// checkTreasureKeyLength rejects a key the storage writer cannot persist. Without it the request
+// would be acknowledged and the treasure silently dropped at the next write (the writer refuses the
+// entry), i.e. lost after the swamp is reopened. The limit is applied to in-memory swamps too, so
+// that a key is valid or invalid independently of how its swamp is registered.
+func checkTreasureKeyLength(key string) error {
+	if len(key) > maxTreasureKeyLength {
+		return status.Error(codes.InvalidArgument, fmt.Sprintf("Key cannot be longer than %d bytes", maxTreasureKeyLength))
+	}
+	return nil
 }
 
 // isLoadableSwampName reports whether name.Load can parse the name: it needs the three
